@@ -68,12 +68,14 @@ static long fam_count(int tier, int fam)
     return n;
 }
 
+#define N_SHARED (8 * 2 * 3)	/* type x solve order x guess */
+
 static long count(int tier)
 {
     long n = 0;
     for (int f = 0; f < F_NFAM; ++f)
 	n += fam_count(tier, f);
-    return n;
+    return n + N_SHARED;
 }
 
 static int add_par(cs_scenario *sc, cs_param p)
@@ -343,6 +345,82 @@ out:
     vnacal_free(vcp);
 }
 
+/*
+ * One unknown parameter used by two vnacal_new_t structures with different
+ * frequency grids (2 and 5 points): solve one, then the other, then the
+ * first again; after every solve vnacal_get_parameter_value must return the
+ * most recently solved values at every frequency of that grid.
+ */
+static void run_shared(long idx, vf_result *r)
+{
+    static cs_scenario a, b;
+    int gi = vf_digit(&idx, 3);
+    int order = vf_digit(&idx, 2);
+    vnacal_type_t type = types[idx];
+    const char *tname = vnacal_type_to_name(type);
+    cs_c guess = gmag[gi] * cexp(I * gph[gi] * M_PI / 180.0);
+    int unk[8], nunk;
+    char sig[160];
+    vnacal_t *vcp;
+
+    vf_desc(r, "shared unknown reflect %s 1x1: vnacal_new_t A on 2 "
+	    "frequencies and B on 5, solved %s, values read after each "
+	    "solve", tname, order ? "B, A, B" : "A, B, A");
+    unsigned long mark = vf_exec_begin();
+    build(&a, F_UREFLECT1, type, 2, 2, guess, 0, 1, unk, &nunk);
+    build(&b, F_UREFLECT1, type, 2, 5, guess, 0, 1, unk, &nunk);
+    vf_errlog_reset(&elog);
+    vcp = vnacal_create((vnaerr_error_fn_t *)vf_errfn, &elog);
+    if (vcp == NULL || cs_make_params(vcp, &a) != 0) {
+	vf_fail(r, "shared:setup", "set-up failed");
+	goto out;
+    }
+    for (int k = 0; k < a.nparam; ++k)
+	b.param[k].handle = a.param[k].handle;
+    vnacal_new_t *va = cs_build(vcp, &a), *vb = cs_build(vcp, &b);
+    if (va == NULL || vb == NULL) {
+	vf_fail(r, "shared:setup", "standards rejected: %s",
+		elog.count ? elog.msg[0] : "");
+	goto out;
+    }
+    for (int step = 0; step < 3; ++step) {
+	bool use_b = ((step + order) & 1) != 0;
+	cs_scenario *sc = use_b ? &b : &a;
+	vf_errlog_reset(&elog);
+	int rc = vnacal_new_solve(use_b ? vb : va);
+	r->transitions += 1 + sc->vna.nf;
+	if (rc != 0) {
+	    snprintf(sig, sizeof(sig), "shared:no-convergence:%s", tname);
+	    vf_fail(r, sig, "solve %d (%s) failed: %s", step + 1,
+		    use_b ? "B" : "A", elog.count ? elog.msg[0] : "");
+	    goto out;
+	}
+	for (int f = 0; f < sc->vna.nf; ++f) {
+	    cs_c got = vnacal_get_parameter_value(vcp,
+		    a.param[unk[0]].handle, sc->vna.f[f]);
+	    cs_c want = cs_param_value(&sc->vna, &sc->param[unk[0]],
+		    sc->vna.f[f]);
+	    if (!(cabs(got - want) <= 1e-4)) {
+		snprintf(sig, sizeof(sig), "shared:param-wrong:%s", tname);
+		vf_fail(r, sig, "after solve %d (%s, %d frequencies) the "
+			"shared unknown reads %g%+gj at %.3g Hz, truth "
+			"%g%+gj", step + 1, use_b ? "B" : "A", sc->vna.nf,
+			creal(got), cimag(got), sc->vna.f[f], creal(want),
+			cimag(want));
+		goto out;
+	    }
+	}
+    }
+    r->nontrivial = 1;
+    vf_outcome(r, "shared-unknown %s", tname);
+out:
+    if (vcp != NULL) {
+	cs_delete_params(vcp, &a);
+	vnacal_free(vcp);
+    }
+    vf_exec_end(r, mark);
+}
+
 static void run(int tier, long idx, vf_result *r)
 {
     static cs_scenario sc;
@@ -351,6 +429,10 @@ static void run(int tier, long idx, vf_result *r)
 	long n = fam_count(tier, fam);
 	if (idx < n) break;
 	idx -= n;
+    }
+    if (fam == F_NFAM) {
+	run_shared(idx, r);
+	return;
     }
     int nf = vf_digit(&idx, nnf(tier)) + 1;
     int net = vf_digit(&idx, nnet(tier));
